@@ -81,5 +81,33 @@ def consistentSpec (P : List (List Elem)) (c : Ranking) : Bool :=
     | some i, some j => decide (i < j)
     | _, _ => false
 
+/-! ### propositional notions used by the theorems (C05, C06, C07) -/
+
+/-- score of the key vector `v` restricted to the pairs of the id list `ids`. -/
+def scoreIds (t : Table) (ids : List Nat) (v : List Int) : Int :=
+  isum ((pairs ids).map fun p => sel t v p.1 p.2)
+
+/-- `v` (any integer key vector of length `n`) is a global minimiser. -/
+def Optimal (t : Table) (n : Nat) (v : List Int) : Prop :=
+  v.length = n ∧ ∀ w : List Int, w.length = n → scoreVec t v ≤ scoreVec t w
+
+/-- `v` is a minimiser of the sub-problem on `ids` (only comparisons among `ids` matter). -/
+def OptimalOn (t : Table) (ids : List Nat) (v : List Int) : Prop :=
+  ∀ w : List Int, w.length = v.length → scoreIds t ids v ≤ scoreIds t ids w
+
+/-- no arc from a later group to an earlier one: for `i` earlier and `j` later, placing `i` before `j` is a
+    cheapest option. -/
+def NoBack (t : Table) (groups : List (List Nat)) : Prop :=
+  ∀ p ∈ pairs groups, ∀ i ∈ p.1, ∀ j ∈ p.2, t.bef i j ≤ t.aft i j ∧ t.bef i j ≤ t.tie i j
+
+/-- every cross pair of two consecutive groups is a robust arc (strictly cheapest to place before). -/
+def ConsecRobust (t : Table) : List (List Nat) → Prop
+  | g1 :: g2 :: rest => (∀ i ∈ g1, ∀ j ∈ g2, t.bef i j < t.aft i j ∧ t.bef i j < t.tie i j) ∧ ConsecRobust t (g2 :: rest)
+  | _ => True
+
+/-- the key vector ranks every element of an earlier group strictly before every element of a later group. -/
+def RespectsI (groups : List (List Nat)) (v : List Int) : Prop :=
+  ∀ p ∈ pairs groups, ∀ i ∈ p.1, ∀ j ∈ p.2, v.getD i 0 < v.getD j 0
+
 end Spec
 end Corankco
